@@ -697,6 +697,40 @@ def validate_sizer_types(nodes):
                                          (member.name, node.name, member.bound))
 
 
+def validate_composability(nodes):
+    """
+    The documented composability rules. The prophy parser checks them while parsing; other parsers and patches
+    can break them. Requires cross referenced nodes and evaluated kinds.
+    """
+    for node in nodes:
+        if isinstance(node, Struct):
+            names = [member.name for member in node.members]
+            for index, member in enumerate(node.members):
+                where = "'%s' of %s" % (member.name, node.name)
+                if member.optional and member.kind != Kind.FIXED:
+                    raise ModelError("optional field %s is of dynamic type" % where)
+                if member.size and member.kind != Kind.FIXED:
+                    raise ModelError("fixed or limited array %s is of dynamic type" % where)
+                if member.is_array and member.kind == Kind.UNLIMITED:
+                    raise ModelError("array %s is of unlimited type" % where)
+                if member.bound:
+                    if member.bound not in names[:index]:
+                        raise ModelError("sizer of array %s has to be defined before the array" % where)
+                    sizer = node.members[names.index(member.bound)]
+                    if sizer.optional or sizer.is_array:
+                        raise ModelError("sizer of array %s must not be optional nor an array" % where)
+                if member.size and not isinstance(member.numeric_size, six.string_types + (type(None),)):
+                    if member.numeric_size <= 0:
+                        raise ModelError("size '%s' of array %s is not positive" % (member.size, where))
+                if index != len(node.members) - 1 and (member.greedy or member.kind == Kind.UNLIMITED):
+                    raise ModelError("greedy array field %s is not the last field" % where)
+        elif isinstance(node, Union):
+            for member in node.members:
+                member.calc_wire_stiffness()
+                if member.kind != Kind.FIXED:
+                    raise ModelError("union arm '%s' of %s is of dynamic type" % (member.name, node.name))
+
+
 def evaluate_model(nodes, warn_emitter=lambda x: None):
     validate_names(nodes)
     validate_bounds(nodes)
@@ -705,6 +739,7 @@ def evaluate_model(nodes, warn_emitter=lambda x: None):
     validate_sizer_types(nodes)
     validate_values(nodes, constants)
     evaluate_stiffness_kinds(nodes)
+    validate_composability(nodes)
     evaluate_sizes(nodes, warn_emitter)
     return nodes, constants
 
